@@ -491,6 +491,28 @@ fn fixed_cases(rep: &mut Report, codes: &[String], gates: &Gates) {
             }
         }
     }
+    // a directory that holds a source file whose NAME is not valid UTF-8 (a Latin-1 name on a Unix
+    // file system): whatever the tool makes of it, the three channels agree
+    {
+        use std::os::unix::ffi::OsStrExt;
+        let odd = dir.path.join("odd");
+        std::fs::create_dir_all(&odd).unwrap();
+        let _ = std::fs::write(odd.join(std::ffi::OsStr::from_bytes(b"caf\xe9.st")), b"PROGRAM p4\nVAR\nw : INT;\nEND_VAR\nw := 1;\nEND_PROGRAM\n");
+        let _ = std::fs::write(odd.join("plain.st"), b"PROGRAM p5\nVAR\nv : INT;\nEND_VAR\nv := 1;\nEND_PROGRAM\n");
+        let od = odd.to_string_lossy().to_string();
+        cases.push(("directory with a file name that is not UTF-8", vec!["check".into(), od.clone()]));
+        cases.push(("good file + directory with a file name that is not UTF-8", vec!["check".into(), good.clone(), od.clone()]));
+        for cmd in ["echo", "tokenize"] {
+            let o = run_cli(&[cmd.to_string(), od.clone()], None);
+            if !o.timed_out {
+                rep.stats.case(true, hash_str(&format!("{} odd", cmd)));
+                rep.stats.class(&format!("fixed.{}-directory-with-non-utf8-name", cmd));
+                if !matches!(o.status, Some(c) if c != 101) {
+                    rep.failures.push((Failure::new("fixed-case", "abnormal-exit", format!("`{} <dir with a non-UTF-8 file name>` exits {:?}", cmd, o.status), json!({"case": "non-UTF-8 file name"})), vec![]));
+                }
+            }
+        }
+    }
     if gates.want("CHECK_EMPTY_SET") {
         cases.push(("empty directory", vec!["check".into(), empty.to_string_lossy().to_string()]));
         cases.push(("no arguments", vec!["check".into()]));
